@@ -113,7 +113,7 @@ def check(col: Collector, tier: str):
                     f"executor attribute {cell[2:]} is set once at construction and is not reset, but is written during a translation "
                     f"by {writers} ({ws[0].how}): whatever one query adds is seen by the next", f"{ws[0].func.module.rel}:{ws[0].node.lineno}")
             continue
-        ok = covered.get(cell) == "fresh"
+        ok = covered.get(cell) == "fresh" or _reinit_at_entry(ex, cell, ws)
         col.add("C07.R3", cell, "reset-covers-written-cell", ok,
                 f"state cell written by {writers} ({ws[0].how} at {ws[0].func.module.rel}:{ws[0].node.lineno}) "
                 + ("is re-initialised by executor.reset" if ok else
@@ -125,7 +125,7 @@ def check(col: Collector, tier: str):
         attr = cell[2:]
         if attr in CONFIG_ATTRS:
             continue
-        col.add("C07.R3", cell, "instance-cell-covered-by-reset", covered.get(cell) == "fresh",
+        col.add("C07.R3", cell, "instance-cell-covered-by-reset", covered.get(cell) == "fresh" or _reinit_at_entry(ex, cell, cells.get(cell, [])),
                 f"executor attribute {attr} holds per-translation state and must be re-initialised by reset()", reset.loc)
     # class-level attributes holding a computed/mutable value are process-wide state
     for cell, node in sorted(eff.class_state.items()):
@@ -220,6 +220,31 @@ def check(col: Collector, tier: str):
     ok = all(isinstance(v, (ast.List, ast.Tuple, ast.Dict, ast.Call)) for v in gmade.values()) and len(gmade) >= 6
     col.add("C07.R6", "generated_code.__init__", "all-fields-fresh", ok,
             "every field of the emission state must be created in the constructor", gi.loc)
+
+
+def _reinit_at_entry(ex, cell: str, ws) -> bool:
+    """Accepted alternative to reset coverage: the cell is an executor attribute written only inside the first
+    translation entry point (apply_ast_transformations), where an unconditional top-level statement assigns it a
+    fresh container before any other write (so nothing of an earlier query is ever read back)."""
+    if not cell.startswith("S:"):
+        return False
+    attr = cell[2:]
+    f = ex.methods.get("apply_ast_transformations")
+    if f is None or any(w.func is not f for w in ws) or not ws:
+        return False
+    fresh_at = None
+    for st in f.node.body:
+        if isinstance(st, ast.Assign) and src(st.targets[0]) == f"self.{attr}":
+            v = st.value
+            if (isinstance(v, (ast.Dict, ast.List, ast.Set)) and not getattr(v, "keys", None) and not getattr(v, "elts", None)) \
+                    or (isinstance(v, ast.Call) and call_name(v) in ("dict", "list", "set", "defaultdict")):
+                fresh_at = st.lineno
+                break
+    if fresh_at is None:
+        return False
+    others = [w for w in ws if w.node.lineno != fresh_at]
+    reads_before = [n for n in ast.walk(f.node) if isinstance(n, ast.Attribute) and src(n) == f"self.{attr}" and n.lineno < fresh_at]
+    return all(w.node.lineno > fresh_at for w in others) and not reads_before
 
 
 def _is_const_call(node) -> bool:
